@@ -358,3 +358,5 @@ def run(ctx, chk, tier):
     check_one_vs_all(ctx, chk)
     check_decorator(ctx, chk)
     check_accuracy(ctx, chk)
+    from . import c10
+    c10.purity(ctx, chk, only=("ConfusionMatrix.",), strict=False)
